@@ -123,10 +123,24 @@ def instances(rule, max_n=8):
                 else:
                     env[v] = preds(pool(v), k + (sum(map(ord, v)) % 5))
             elif so == "E":
-                side = "?left" if v[1] == "l" else "?right" if v[1] == "r" else pvars[0]
-                cols = TABS[tab.get(side, tab[pvars[0]])]
                 idx = int(v[-1]) - 1 if v[-1].isdigit() else 0
-                env[v] = cols[(idx + k) % len(cols)]
+                constrained = any(c["args"] and c["args"][0] == v and c["fn"] in ("not_depend_on", "all_depend_on") for c in rule["conds"])
+                if constrained:
+                    # whatever the rule's conditions allow: a column, or (every other instance) an
+                    # expression over columns of two inputs when the conditions do not forbid it
+                    cols = pool(v)
+                    tabs_in = sorted({c.split(".")[0] for c in cols})
+                    if len(tabs_in) > 1 and k % 2 == 1:
+                        a = [c for c in cols if c.split(".")[0] == tabs_in[0]]
+                        b = [c for c in cols if c.split(".")[0] == tabs_in[1]]
+                        env[v] = "(+ %s %s)" % (b[(idx + k) % len(b)], a[(idx + k) % len(a)])
+                    else:
+                        own = [c for c in cols if c in TABS[tab.get("?left" if v[1] == "l" else "?right", tab[pvars[0]])]] or cols
+                        env[v] = own[(idx + k) % len(own)]
+                else:
+                    side = "?left" if v[1] == "l" else "?right" if v[1] == "r" else pvars[0]
+                    cols = TABS[tab.get(side, tab[pvars[0]])]
+                    env[v] = cols[(idx + k) % len(cols)]
             elif so in ("EL", "CL"):
                 if any(c["fn"] == "schema_is_eq" and c["args"][0] == v for c in rule["conds"]):
                     env[v] = "(list %s)" % " ".join(TABS[tab[next(c["args"][1] for c in rule["conds"] if c["fn"] == "schema_is_eq")]])
